@@ -69,11 +69,21 @@ class Vertex(object):
         self.v = v
 
 
-def build(t):
+def build(t, how="bottom-up"):
+    """how = "bottom-up": children list complete when the node is created; "top-down": the node is created
+    with its still empty children list, which the caller then fills through its own reference (the documented
+    attribute is a list the caller owns); "tuple": the children are handed over as a tuple."""
     if t[0] == "L":
         return Vertex(t[1])
     cls = NODE_CLASSES[t[3] if len(t) > 3 else 0]
-    return cls(tuple(t[1]), [(route_obj(r), build(k)) for r, k in t[2]])
+    if how == "top-down":
+        kids = []
+        node = cls(tuple(t[1]), kids)
+        for r, k in t[2]:
+            kids.append((route_obj(r), build(k, how)))
+        return node
+    kids = [(route_obj(r), build(k, how)) for r, k in t[2]]
+    return cls(tuple(t[1]), tuple(kids) if how == "tuple" else kids)
 
 
 def canon_set(s):
@@ -81,7 +91,7 @@ def canon_set(s):
 
 
 def run_trees(c):
-    routes = OrderedDict((n, build(t)) for n, t in c["routes"])
+    routes = OrderedDict((n, build(t, c.get("build", "bottom-up"))) for n, t in c["routes"])
     net_keys = OrderedDict((n, tuple(km)) for n, km in c["net_keys"])
     try:
         entry = c.get("entry", "r2t")
@@ -98,7 +108,25 @@ def run_trees(c):
                    for xy, es in tables.items()]]
 
 
-def entry_obj(e, cls=RoutingTableEntry):
+class DuckEntry(object):
+    """Not a RoutingTableEntry at all: just the attributes the loader reads."""
+
+    def __init__(self, route, key, mask, sources):
+        self.route, self.key, self.mask, self.sources = route, key, mask, sources
+
+
+def entry_obj(e, cls=RoutingTableEntry, form="set"):
+    """form = "set": through the constructor (route becomes a frozenset); otherwise the route stays the sequence
+    given, repetitions included: "replace-list" / "make-tuple" use the namedtuple's own _replace / _make, which
+    bypass the constructor; "duck" is a plain object with the four attributes."""
+    if form != "set":
+        route = [route_obj(r) for r in e[0]]
+        srcs = set(route_obj(None if s == -1 else s) for s in e[3])
+        if form == "replace-list":
+            return cls(set(), e[1], e[2], srcs)._replace(route=route)
+        if form == "make-tuple":
+            return cls._make((tuple(route), e[1], e[2], srcs))
+        return DuckEntry(route, e[1], e[2], srcs)
     return cls(set(route_obj(r) for r in e[0]), e[1], e[2],
                              set(route_obj(None if s == -1 else s) for s in e[3]))
 
@@ -112,7 +140,8 @@ def run_load(c):
     mc.connections = {None: fake}
     mc._scp_data_length = 256          # otherwise the first read asks the machine for its buffer size
     sub = c.get("sub_entries")
-    tables = OrderedDict((tuple(xy), [entry_obj(e, SubEntry if sub and i % 2 else RoutingTableEntry)
+    form = c.get("route_form", "set")
+    tables = OrderedDict((tuple(xy), [entry_obj(e, SubEntry if sub and i % 2 else RoutingTableEntry, form)
                                       for i, e in enumerate(es)]) for xy, es in c["tables"])
     try:
         if c["mode"] == "entries":
